@@ -144,6 +144,8 @@ type rewriter struct {
 	counts    Counts
 	errs      []string
 	loopYield bool // inside a function listed in LoopYieldFuncs
+	// a maps.Keys / Values / All call was replaced: the file may not use package maps any more
+	keepMapsImport bool
 }
 
 func (r *rewriter) site(pos token.Pos) string {
@@ -268,6 +270,22 @@ func (r *rewriter) scanOwn(n ast.Node, nd *need) {
 			if id, ok := e.Fun.(*ast.Ident); ok && id.Name == "close" && len(e.Args) == 1 {
 				if _, isBuiltin := r.p.Info.Uses[id].(*types.Builtin); isBuiltin {
 					nd.yieldBefore, nd.why = true, "close"
+				}
+			}
+			// maps.Keys / maps.Values / maps.All of the standard library iterate in Go's own random order
+			if r.opt.MapOrder {
+				if fsel, isSel := e.Fun.(*ast.SelectorExpr); isSel && len(e.Args) == 1 {
+					if pid, isID := fsel.X.(*ast.Ident); isID {
+						if pn, isPkg := r.p.Info.Uses[pid].(*types.PkgName); isPkg && pn.Imported().Path() == "maps" {
+							if fn := map[string]string{"Keys": "MapKeysSeq", "Values": "MapValuesSeq", "All": "MapAllSeq"}[fsel.Sel.Name]; fn != "" {
+								e.Fun = &ast.SelectorExpr{X: ast.NewIdent("simrt"), Sel: ast.NewIdent(fn)}
+								e.Args = append(e.Args, strLit(r.site(e.Pos())))
+								r.counts.Map++
+								r.keepMapsImport = true
+								return true
+							}
+						}
+					}
 				}
 			}
 			sel, pkg, name, isPtr, ok := r.recvType(e)
@@ -647,6 +665,12 @@ func (p *Package) File(path string, opt Options) ([]byte, Counts, error) {
 		return nil, r.counts, fmt.Errorf("unsupported constructs:\n  %s", strings.Join(r.errs, "\n  "))
 	}
 	addImport(af, SimrtPath)
+	if r.keepMapsImport {
+		// var _ = maps.Clone[map[int]int]
+		af.Decls = append(af.Decls, &ast.GenDecl{Tok: token.VAR, Specs: []ast.Spec{&ast.ValueSpec{Names: []*ast.Ident{ast.NewIdent("_")},
+			Values: []ast.Expr{&ast.IndexExpr{X: &ast.SelectorExpr{X: ast.NewIdent("maps"), Sel: ast.NewIdent("Clone")},
+				Index: &ast.MapType{Key: ast.NewIdent("int"), Value: ast.NewIdent("int")}}}}}})
+	}
 	// drop comments: positions of generated nodes would misplace them. Build
 	// constraints are re-emitted; any other compiler directive is an error.
 	var constraints []string
